@@ -17,6 +17,9 @@ Fixpoint hb (n : nat) (ws : list int) : bytes :=
   | w :: r => if (n <=? 7)%nat then word_bytes n w else word_bytes 7 w ++ hb (n - 7) r
   end.
 
+(* a run of one byte (nesting bombs, padded block data) *)
+Definition rep (n : N) (b : N) : bytes := N.iter n (cons b) [].
+
 Example hb_ex : hb 9 [0x01020304050607%uint63; 0x0809%uint63] = [1; 2; 3; 4; 5; 6; 7; 8; 9]%N.
 Proof. vm_compute. reflexivity. Qed.
 Example hb_ex0 : hb 0 [] = []. Proof. reflexivity. Qed.
